@@ -265,7 +265,7 @@ PROPS["C02"] = dict(
 
 PROPS["C05"] = dict(
     harness="p_dbg",
-    phases=dict(quick=[enum(8), rc(8, 1500)], thorough=[enum(16), rc(16, 40000)]),
+    phases=dict(quick=[enum(8), rc(8, 1500)], thorough=[dict(kind="enum", shards=16, flavour="fast"), rc(16, 20000), rc(16, 40000, flavour="fast", seed_offset=100)]),
     rule=("cases: histories over {execute, executeSingle(xk), stepping on/off, enable/disable(location from the available ones and bogus "
           "ones), enable-all, clear, reads} of length 3-40 on generated programs (canonical and free layout, several sites per line, calls in loops), "
           "plus ALL histories of length <=5 (quick) / <=6 (thorough) over an 8-letter alphabet on 7 fixed small programs, plus a sweep "
@@ -287,7 +287,7 @@ PROPS["C05"] = dict(
 
 PROPS["C06"] = dict(
     harness="p_dbg",
-    phases=dict(quick=[enum(8), rc(8, 1500)], thorough=[enum(16), rc(16, 40000)]),
+    phases=dict(quick=[enum(8), rc(8, 1500)], thorough=[dict(kind="enum", shards=16, flavour="fast"), rc(16, 20000), rc(16, 40000, flavour="fast", seed_offset=100)]),
     rule=("cases: as C05 plus reset (9-letter alphabet for the exhaustive part; enable-all; resume-length sweep k=0..1100). Oracle: explicit model (position k on the recorded path, enabled "
           "set E, stepping flag S): execute stops at the first j>=k whose instruction is a site with S or loc in E, else at the end; "
           "executeSingle returns true exactly at such a site or at HALT; setBreakPoint returns true exactly for available locations and "
@@ -306,7 +306,7 @@ PROPS["C06"] = dict(
 
 PROPS["C17"] = dict(
     harness="p_dbg",
-    phases=dict(quick=[enum(8), rc(8, 1500)], thorough=[enum(16), rc(16, 40000)]),
+    phases=dict(quick=[enum(8), rc(8, 1500)], thorough=[dict(kind="enum", shards=16, flavour="fast"), rc(16, 20000), rc(16, 40000, flavour="fast", seed_offset=100)]),
     rule=("cases: history h1 (partial runs, stops inside callees, enabled breakpoints, stepping on), reset, history h2, any number of resets "
           "(exhaustive 9-letter histories of length <=5/6 on 7 fixed programs; random histories with a forced reset in the middle). "
           "Oracle: immediately after reset ip=0, no data words, no frames, every site passive, enabled set empty, stepping off, current "
